@@ -46,7 +46,6 @@ type argPred func(string) bool
 func sfx(s string) argPred   { return func(a string) bool { return strings.HasSuffix(a, s) } }
 func has(s string) argPred   { return func(a string) bool { return strings.Contains(a, s) } }
 func exact(s string) argPred { return func(a string) bool { return a == s } }
-func anyArg() argPred        { return func(string) bool { return true } }
 
 // Find returns the names of atoms of the given kind (in the support of Reject) whose arguments match
 // the predicates in some order.
